@@ -47,6 +47,12 @@ def run_functions(index, registry, quals, models, timeout_ms, seed, second=None,
     recs = []
     for q in quals:
         rec = {"function": q, "status": "ok", "obligations": [], "notes": {}, "covers": []}
+        # "qual@@text": only the obligations whose name contains `text` are counted here (call-site obligations of a function
+        # whose remaining obligations - the loop invariants they rest on - are discharged under another property's check)
+        only_q = None
+        if "@@" in q:
+            q, only_q = q.split("@@", 1)
+            rec["restricted_to"] = only_q
         try:
             fi = index.find(q.split("#")[0])
             if fi is None:
@@ -56,6 +62,8 @@ def run_functions(index, registry, quals, models, timeout_ms, seed, second=None,
                 # obligations tagged with properties are counted only for those; untagged (auxiliary) ones for every property
                 from pyvc.contracts import DEPS
                 obs = [o for o in obs if not o.props or (set(o.props) & DEPS.get(pid, {pid}))]
+            if only_q is not None:
+                obs = [o for o in obs if only_q in o.name]
             if only is not None:
                 obs = [o for o in obs if only in o.name]
             rec["source_hash"] = fi.hash
